@@ -530,6 +530,20 @@ pub fn c06(a: &Args, rep: &mut Report) {
         let mut c = gen_case("C06", &a.tier, a.seed, k, &o);
         with_random_mask("C06mask", a, k, &mut c, 5);
         one_c06("C06", &c, rep);
+        // history (every fifth input): the SAME generators in a box that is wider along one active axis (they are still
+        // inside it), right after the first construction on the same thread, judged by the same oracles - the period of a
+        // construction is the one of its own arguments, not one remembered from a previous call
+        if k % 5 == 3 {
+            let mut r = Rng::stream("C06wider", &[a.seed, k]);
+            let ax = r.below(c.dim);
+            let mut c2 = c.clone();
+            c2.width[ax] *= *r.pick(&[1.25, 2., 1.0625]);
+            c2.origin = format!("{}/wider{}", c.origin, ax);
+            if c2.validity().is_ok() {
+                one_c06("C06", &c2, rep);
+                rep.count("history_same_generators_wider_box", 1);
+            }
+        }
     });
     // zoom inputs are judged by their own monitor only (local reference): the translation / replication comparisons above
     // perturb the generators by u W, which the box-relative tolerance model does not relate to cells of 1e-8 W
